@@ -317,6 +317,7 @@ func (i *interpreter) runPath(fn *ssa.Function, job *Job) (kind, msg string) {
 	ex.nondets = nil
 	ex.ndIndex = map[string]int{}
 	ex.knownOn = ""
+	ex.opaqueQ = 0
 	if job.Sched != "" {
 		i.sched = newScheduler(i, job.Sched == "sym", job.Preempt)
 		i.gstate = i.sched.gs[0]
